@@ -1,2 +1,153 @@
+/* frame generators (C03) and dump bounds (C07)
+ * gen <kind> <a1> <a2> <a3> <p1> .. <p7> [extras: A:<num>:<hex> | D:<hex>] ... B<buflen>|B*
+ *   B<n>: one dump into an exactly n-byte heap block; B*: every size 0..len+2 */
 #include "h.h"
-const struct op ops_gen[] = { {NULL, NULL} };
+
+#define CLK_SEC 1700000000LL
+#define CLK_NSEC 123456789LL
+
+static unsigned char *mac(const char *tok) { size_t n; unsigned char *b = hexbuf(tok, &n); unsigned char *m = __real_malloc(6); memset(m, 0, 6); memcpy(m, b, n < 6 ? n : 6); __real_free(b); return m; }
+static char *cstr_tok(const char *tok) { size_t n; unsigned char *b = hexbuf(tok, &n); char *z = __real_malloc(n + 1); memcpy(z, b, n); z[n] = 0; __real_free(b); return z; }
+
+typedef size_t (*dump_fn)(void *, unsigned char *, size_t);
+typedef size_t (*len_fn)(void *);
+
+/* one dump into an exactly sized block with 0xEE fill; prints result and integrity flags */
+static void dump_once(void *obj, dump_fn df, size_t bl, size_t expect_len, int print_bytes) {
+    unsigned char *buf = __real_malloc(bl);
+    memset(buf, 0xEE, bl);
+    size_t r;
+    LIB(r = df(obj, buf, bl));
+    if ((long) r < 0) {
+        int touched = 0;
+        for (size_t i = 0; i < bl; i++) touched |= buf[i] != 0xEE;
+        printf("err%s", touched ? " TOUCHED" : "");
+    } else {
+        printf("ok %zu ", r);
+        if (print_bytes) out_hex(buf, r <= bl ? r : bl);
+        int beyond = 0;
+        for (size_t i = r; i < bl; i++) beyond |= buf[i] != 0xEE;
+        if (beyond) printf(" BEYOND");
+        if (r != expect_len) printf(" LEN-MISMATCH");
+    }
+    __real_free(buf);
+}
+
+static void do_dump(void *obj, dump_fn df, len_fn lf, const char *btok) {
+    size_t len;
+    LIB(len = lf(obj));
+    printf(" len=%zu dump=", len);
+    if (btok[1] == '*') {
+        /* reference bytes from an exact-size dump, then every other size */
+        unsigned char *ref = __real_malloc(len); size_t r0;
+        LIB(r0 = df(obj, ref, len));
+        int bad = 0; size_t first_ok = (size_t) -1;
+        for (size_t bl = 0; bl <= len + 2 && !bad; bl++) {
+            unsigned char *buf = __real_malloc(bl); memset(buf, 0xEE, bl);
+            size_t r;
+            LIB(r = df(obj, buf, bl));
+            if ((long) r < 0) { for (size_t i = 0; i < bl; i++) if (buf[i] != 0xEE) bad = 1; if (bl >= len) bad = 2; }
+            else {
+                if (first_ok == (size_t) -1) first_ok = bl;
+                if (bl < len || r != len || r0 != len || memcmp(buf, ref, len) != 0) bad = 3;
+                for (size_t i = len; i < bl; i++) if (buf[i] != 0xEE) bad = 4;
+            }
+            __real_free(buf);
+        }
+        if (bad) printf("SWEEP-BAD(%d)", bad); else printf("sweep first_ok=%zu", first_ok);
+        __real_free(ref);
+    } else {
+        dump_once(obj, df, (size_t) tok_ll(btok + 1), len, 1);
+    }
+}
+
+static int add_extras(struct libwifi_tagged_parameters *tags, int nt, char **t, int from) {
+    int r = 0;
+    for (int i = from; i < nt - 1; i++) {
+        char *o = t[i];
+        if (o[0] != 'A') continue;
+        char *c2 = strchr(o + 2, ':'); *c2 = 0;
+        size_t n; unsigned char *b = hexbuf(c2 + 1, &n);
+        int rr;
+        LIB(rr = libwifi_quick_add_tag(tags, (int) tok_ll(o + 2), b, n));
+        if (rr != 0) r = rr;
+        __real_free(b);
+    }
+    return r;
+}
+
+#define TAGGED(T, CREATE, DUMP, LEN, FREE) do { \
+        struct T o; memset(&o, 0x5A, sizeof o); int r; \
+        LIB(r = CREATE); \
+        printf("gen %d", r); \
+        if (r == 0) { int er = add_extras(&o.tags, nt, t, 12); if (er) printf(" extras=%d", er); \
+            do_dump(&o, (dump_fn) DUMP, (len_fn) LEN, t[nt - 1]); } \
+        LIB(FREE(&o)); \
+    } while (0)
+
+static void op_gen(int nt, char **t) {
+    const char *k = t[1];
+    unsigned char *a1 = mac(t[2]), *a2 = mac(t[3]), *a3 = mac(t[4]);
+    clk_sec = CLK_SEC; clk_nsec = CLK_NSEC;
+    if (!strcmp(k, "beacon")) { char *ss = cstr_tok(t[5]);
+        TAGGED(libwifi_beacon, libwifi_create_beacon(&o, a1, a2, a3, ss, (uint8_t) tok_ll(t[6])), libwifi_dump_beacon, libwifi_get_beacon_length, libwifi_free_beacon); __real_free(ss); }
+    else if (!strcmp(k, "probe_resp")) { char *ss = cstr_tok(t[5]);
+        TAGGED(libwifi_probe_resp, libwifi_create_probe_resp(&o, a1, a2, a3, ss, (uint8_t) tok_ll(t[6])), libwifi_dump_probe_resp, libwifi_get_probe_resp_length, libwifi_free_probe_resp); __real_free(ss); }
+    else if (!strcmp(k, "probe_req")) { char *ss = cstr_tok(t[5]);
+        TAGGED(libwifi_probe_req, libwifi_create_probe_req(&o, a1, a2, a3, ss, (uint8_t) tok_ll(t[6])), libwifi_dump_probe_req, libwifi_get_probe_req_length, libwifi_free_probe_req); __real_free(ss); }
+    else if (!strcmp(k, "assoc_req")) { char *ss = cstr_tok(t[5]);
+        TAGGED(libwifi_assoc_req, libwifi_create_assoc_req(&o, a1, a2, a3, ss, (uint8_t) tok_ll(t[6])), libwifi_dump_assoc_req, libwifi_get_assoc_req_length, libwifi_free_assoc_req); __real_free(ss); }
+    else if (!strcmp(k, "reassoc_req")) { char *ss = cstr_tok(t[5]); unsigned char *ap = mac(t[7]);
+        TAGGED(libwifi_reassoc_req, libwifi_create_reassoc_req(&o, a1, a2, a3, ap, ss, (uint8_t) tok_ll(t[6])), libwifi_dump_reassoc_req, libwifi_get_reassoc_req_length, libwifi_free_reassoc_req); __real_free(ss); __real_free(ap); }
+    else if (!strcmp(k, "assoc_resp"))
+        TAGGED(libwifi_assoc_resp, libwifi_create_assoc_resp(&o, a1, a2, a3, (uint8_t) tok_ll(t[6])), libwifi_dump_assoc_resp, libwifi_get_assoc_resp_length, libwifi_free_assoc_resp);
+    else if (!strcmp(k, "reassoc_resp"))
+        TAGGED(libwifi_reassoc_resp, libwifi_create_reassoc_resp(&o, a1, a2, a3, (uint8_t) tok_ll(t[6])), libwifi_dump_reassoc_resp, libwifi_get_reassoc_resp_length, libwifi_free_reassoc_resp);
+    else if (!strcmp(k, "auth"))
+        TAGGED(libwifi_auth, libwifi_create_auth(&o, a1, a2, a3, (uint16_t) tok_ll(t[5]), (uint16_t) tok_ll(t[6]), (uint16_t) tok_ll(t[7])), libwifi_dump_auth, libwifi_get_auth_length, libwifi_free_auth);
+    else if (!strcmp(k, "deauth"))
+        TAGGED(libwifi_deauth, libwifi_create_deauth(&o, a1, a2, a3, (uint16_t) tok_ll(t[5])), libwifi_dump_deauth, libwifi_get_deauth_length, libwifi_free_deauth);
+    else if (!strcmp(k, "disassoc"))
+        TAGGED(libwifi_disassoc, libwifi_create_disassoc(&o, a1, a2, a3, (uint16_t) tok_ll(t[5])), libwifi_dump_disassoc, libwifi_get_disassoc_length, libwifi_free_disassoc);
+    else if (!strcmp(k, "timing_ad")) {
+        struct libwifi_timing_advert_fields f; memset(&f, 0, sizeof f);
+        size_t n; unsigned char *b;
+        f.timing_capabilities = (uint8_t) tok_ll(t[5]);
+        b = hexbuf(t[6], &n); memcpy(f.time_value, b, n < 10 ? n : 10); __real_free(b);
+        b = hexbuf(t[7], &n); memcpy(f.time_error, b, n < 5 ? n : 5); __real_free(b);
+        b = hexbuf(t[8], &n); memcpy(f.time_update, b, n < 1 ? n : 1); __real_free(b);
+        char country[3] = {0, 0, 0};
+        b = hexbuf(t[9], &n); memcpy(country, b, n < 3 ? n : 3); __real_free(b);
+        int mt = 0, tu = 0, nf = 0; sscanf(t[11], "%d,%d,%d", &mt, &tu, &nf);
+        TAGGED(libwifi_timing_advert, libwifi_create_timing_advert(&o, a1, a2, a3, &f, country, (uint16_t) tok_ll(t[10]), (uint8_t) mt, (uint8_t) tu, (uint8_t) nf),
+               libwifi_dump_timing_advert, libwifi_get_timing_advert_length, libwifi_free_timing_advert);
+    }
+    else if (!strcmp(k, "action") || !strcmp(k, "action_noack")) {
+        struct libwifi_action o; memset(&o, 0x5A, sizeof o); int r;
+        if (k[6]) LIB(r = libwifi_create_action_no_ack(&o, a1, a2, a3, (uint8_t) tok_ll(t[5])));
+        else LIB(r = libwifi_create_action(&o, a1, a2, a3, (uint8_t) tok_ll(t[5])));
+        printf("gen %d", r);
+        for (int i = 12; i < nt - 1; i++) if (t[i][0] == 'D') {
+            size_t n; unsigned char *b = hexbuf(t[i] + 2, &n); size_t rr;
+            LIB(rr = libwifi_add_action_detail(&o.fixed_parameters.details, b, n));
+            printf(" d=%ld", (long) rr);
+            __real_free(b);
+        }
+        do_dump(&o, (dump_fn) libwifi_dump_action, (len_fn) libwifi_get_action_length, t[nt - 1]);
+        LIB(libwifi_free_action(&o));
+    }
+    else if (!strcmp(k, "atim")) { struct libwifi_atim o; memset(&o, 0x5A, sizeof o); int r;
+        LIB(r = libwifi_create_atim(&o, a1, a2, a3)); printf("gen %d img=", r); out_hex((unsigned char *) &o, sizeof o); }
+    else if (!strcmp(k, "rts")) { struct libwifi_rts o; memset(&o, 0x5A, sizeof o); int r;
+        LIB(r = libwifi_create_rts(&o, a1, a2, (uint16_t) tok_ll(t[5]))); printf("gen %d img=", r); out_hex((unsigned char *) &o, sizeof o); }
+    else if (!strcmp(k, "cts")) { struct libwifi_cts o; memset(&o, 0x5A, sizeof o); int r;
+        LIB(r = libwifi_create_cts(&o, a1, (uint16_t) tok_ll(t[5]))); printf("gen %d img=", r); out_hex((unsigned char *) &o, sizeof o); }
+    else printf("gen unknown-kind");
+    __real_free(a1); __real_free(a2); __real_free(a3);
+    if (ledger_live()) printf(" LEAK(%d)", ledger_live());
+}
+
+const struct op ops_gen[] = {
+    {"gen", op_gen},
+    {NULL, NULL},
+};
